@@ -557,7 +557,18 @@ def r7_engine_assumptions(cx):
             r = pa.root(f, c.args[0])
             if r[0] == "param" and r[3][-1:] == ("err",):
                 for g in guards_of(m, f, c.b, mode="value"):
-                    if g.root[0] == "call" and re.search(r"PartialEq.*>::(ne|eq)$", g.root[1]):
-                        clears = True
+                    if g.root[0] == "call" and re.search(r"PartialEq.*::(ne|eq)$", g.root[1]):
+                        a = [T_variant(f, pa, x) for x in Call(f, g.root[2]).args]
+                        # `state != Error` true, or `state == Error` false
+                        want = True if g.root[1].endswith("::ne") else False
+                        if "Error" in a and g.truth is want:
+                            clears = True
     cx.ob("C02.R7", "err-cleared", clears, "set_state clears the error whenever the new state is not Error (so err().is_some() implies state Error)", f.loc())
     cx.floor("C02.R7", 14)
+
+
+def T_variant(f, pa, op):
+    r = pa.root(f, op)
+    if r[0] == "agg":
+        return r[2]
+    return None
